@@ -208,6 +208,13 @@ Layout(kind) ==
                                      F("p1_long", "fix", 4, 0),
                                      F("p2_len", "lenenc", 1, 0), F("p2_string", "var", 5, 0),
                                      F("p3_len", "len1", 1, 0), F("p3_datetime", "var", 7, 0) >>
+      [] kind = "execute_rebound" ->          \* second execution: new_bound = 0, the types of the first one are reused
+                                  << F("cmd", "fix", 1, 0), F("stmt_id", "fix", 4, 0), F("flags", "fix", 1, 0),
+                                     F("iterations", "fix", 4, 0), F("null_bitmap", "fix", 1, 0),
+                                     F("new_bound", "fix", 1, 0),
+                                     F("p1_long", "fix", 4, 0),
+                                     F("p2_len", "lenenc", 1, 0), F("p2_string", "var", 5, 0),
+                                     F("p3_len", "len1", 1, 0), F("p3_datetime", "var", 7, 0) >>
       [] kind = "execute0"     -> << F("cmd", "fix", 1, 0), F("stmt_id", "fix", 4, 0), F("flags", "fix", 1, 0),
                                      F("iterations", "fix", 4, 0) >>
       [] kind = "longdata"     -> << F("cmd", "fix", 1, 0), F("stmt_id", "fix", 4, 0), F("param_id", "fix", 2, 0),
@@ -218,12 +225,12 @@ Layout(kind) ==
       [] kind = "setoption"    -> << F("cmd", "fix", 1, 0), F("option", "fix", 2, 0) >>
       [] kind = "unknown"      -> << F("cmd", "fix", 1, 0), F("payload", "fix", 3, 0) >>
 
-AllKinds == {"hs_plain", "hs_db_plugin", "query", "initdb", "fieldlist", "prepare", "execute", "execute0",
+AllKinds == {"hs_plain", "hs_db_plugin", "query", "initdb", "fieldlist", "prepare", "execute", "execute_rebound", "execute0",
              "longdata", "stmtclose", "stmtreset", "ping", "setoption", "unknown"}
 IsHandshake(kind) == kind \in {"hs_plain", "hs_db_plugin"}
 (* commands a server answers when they are well formed *)
 Responds(kind) == kind \notin {"longdata", "stmtclose"}
-HasStmtId(kind) == kind \in {"execute", "execute0", "longdata", "stmtclose", "stmtreset"}
+HasStmtId(kind) == kind \in {"execute", "execute_rebound", "execute0", "longdata", "stmtclose", "stmtreset"}
 ExpectedSeq(kind) == IF IsHandshake(kind) THEN 1 ELSE 0
 
 AddLen(acc, f) == acc + f.len
